@@ -80,6 +80,15 @@ type Builder struct {
 	Suffix string
 	// SuffixData of the base create (shared by duplicate creates).
 	suffixData *model.SuffixDataModel
+	// WinOverride, when set, replaces the window class of the shape by explicit (anchorFrom, anchorUntil) values.
+	WinOverride *[2]int64
+}
+
+func (b *Builder) window(win string) (int64, int64) {
+	if b.WinOverride != nil {
+		return b.WinOverride[0], b.WinOverride[1]
+	}
+	return Window(win)
 }
 
 func canon(v interface{}) []byte {
@@ -164,7 +173,7 @@ func (b *Builder) Request(sh Shape) ([]byte, error) {
 		if err != nil {
 			return nil, err
 		}
-		from, until := Window(sh.Win)
+		from, until := b.window(sh.Win)
 		if sh.Sig == "payload" { // signed for a window that has passed; the attacker lifts the window
 			from, until = Window("late")
 		}
@@ -197,7 +206,7 @@ func (b *Builder) Request(sh Shape) ([]byte, error) {
 		if err != nil {
 			return nil, err
 		}
-		from, until := Window(sh.Win)
+		from, until := b.window(sh.Win)
 		if sh.Sig == "payload" {
 			from, until = Window("late")
 		}
@@ -227,7 +236,7 @@ func (b *Builder) Request(sh Shape) ([]byte, error) {
 			RevealValue: ks.ByID[sh.Rk].RV, SignedData: compact, Delta: reqDelta}), nil
 	case "D":
 		emb, signer := b.signingKey(sh)
-		from, until := Window(sh.Win)
+		from, until := b.window(sh.Win)
 		if sh.Sig == "payload" {
 			from, until = Window("late")
 		}
